@@ -449,6 +449,19 @@ ErrorCode Library::write_oas(const char* filename, double circle_tolerance,
         Array<RawCell*> top_rawcells = {};
         top_level(top_cells, top_rawcells);
         for (uint64_t i = 0; i < top_cells.count; i++) {
+            // A cell placed through a by-name reference is not a top cell of the file either
+            bool placed_by_name = false;
+            for (uint64_t j = 0; j < c_size && !placed_by_name; j++) {
+                const Array<Reference*>& refs = cell_array[j]->reference_array;
+                for (uint64_t k = 0; k < refs.count; k++) {
+                    if (refs[k]->type == ReferenceType::Name &&
+                        strcmp(refs[k]->name, top_cells[i]->name) == 0) {
+                        placed_by_name = true;
+                        break;
+                    }
+                }
+            }
+            if (placed_by_name) continue;
             set_property(properties, s_top_level_property_name, top_cells[i]->name, true);
         }
         top_cells.clear();
